@@ -32,8 +32,9 @@ def gen_breaker_cfg(r: random.Random) -> dict:
 
 def maybe_sibling(r: random.Random, cfg: dict):
     """sometimes a second breaker is configured from the very same trip_on set object"""
-    if cfg.get("trip_on") is not None and r.random() < 0.2:
-        others = [c for c in COUNTABLE if c not in cfg["trip_on"] and c not in cfg["class_thresholds"]]
+    if r.random() < 0.2:
+        mine = cfg["trip_on"] if cfg.get("trip_on") is not None else ["TRANSIENT", "SERVER_ERROR"]
+        others = [c for c in COUNTABLE if c not in mine and c not in cfg["class_thresholds"]]
         if others:
             return {"when": r.choice(["before", "after", "after"]), "class_thresholds": {c: r.choice([1, 2]) for c in r.sample(others, min(len(others), r.randint(1, 2)))}}
     return None
